@@ -54,6 +54,9 @@ func hostVariant(g *prng.R, base string) (host, class string) {
 	case 0, 1:
 		return base, "equal"
 	case 2:
+		if g.Chance(1, 3) {
+			return "local.example", "different" // a peer reaching for this server's own objects
+		}
 		return "evil.example", "different"
 	case 3:
 		return base + ":8443", "port"
@@ -74,6 +77,7 @@ func genOrigin(g *prng.R) c06Case {
 	var objs A
 	expect := "apply"
 	var classes []string
+	iriInUpdate := false
 	sc := inboxScenario(nil, nil)
 	for i := 0; i < n; i++ {
 		h, class := hostVariant(g, "remote.example")
@@ -95,8 +99,11 @@ func genOrigin(g *prng.R) c06Case {
 		classes = append(classes, class)
 		sc.Store[id] = withCtx(note(id, M{"content": "stored"}))
 		embedded := g.Bool()
-		if typ == "Update" {
+		if typ == "Update" && !g.Chance(1, 5) {
 			embedded = true
+		}
+		if typ == "Update" && !embedded {
+			iriInUpdate = true
 		}
 		if embedded {
 			objs = append(objs, M{"type": "Note", "id": id, "content": "changed by peer"})
@@ -131,6 +138,11 @@ func genOrigin(g *prng.R) c06Case {
 				expect = "reject"
 			}
 		}
+	}
+	if iriInUpdate && expect == "apply" {
+		// the default Update needs the whole object: an object named by IRI
+		// only makes it fail by design, after the origin check
+		expect = "either-partial"
 	}
 	act := M{"type": typ, "id": actID, "actor": carol(), "object": objs}
 	sc.Requests = []sim.Request{sim.PostInboxReq(aliceIn(), withCtx(act))}
@@ -209,6 +221,30 @@ func genAccept(g *prng.R) c06Case {
 			actors = append(actors, a)
 		}
 	}
+	if g.Chance(1, 6) {
+		// the same accepter named twice, in the other form
+		actors = append(actors, M{"type": "Person", "id": accepters[0]})
+	}
+	if g.Chance(1, 5) {
+		// something that is not a Follow stands before it
+		obj = A{M{"type": "Note", "id": R1 + "/notes/decoy", "content": "not a follow"}, obj}
+	}
+	if stored != nil && variant != "other-actor" && g.Chance(1, 4) {
+		// the stored Follow's own shape: several actors (the local one among
+		// them), or embedded values
+		switch g.Intn(3) {
+		case 0:
+			stored["actor"] = A{bob(), alice()}
+		case 1:
+			stored["actor"] = M{"type": "Person", "id": alice()}
+		default:
+			var eo A
+			for _, o := range asList(stored["object"]) {
+				eo = append(eo, M{"type": "Person", "id": o})
+			}
+			stored["object"] = eo
+		}
+	}
 	act := M{"type": "Accept", "id": R1 + "/act/accept1", "actor": actors, "object": obj}
 	sc.Requests = []sim.Request{sim.PostInboxReq(aliceIn(), withCtx(act))}
 	expect := "reject"
@@ -233,14 +269,16 @@ func genUndo(g *prng.R) c06Case {
 	case "disjoint":
 		undoActors, objActors = pool[:1], pool[2:]
 	}
-	n := g.Range(1, 2)
+	n := g.Range(1, 3)
 	var objs A
 	ok := true
+	either := false
+	bad := g.Intn(n) // the position of the activity whose actors follow `rel`; the others are covered
 	for i := 0; i < n; i++ {
 		oid := fmt.Sprintf("%s/act/like%d", R1, i)
 		oa := objActors
-		if i > 0 {
-			oa = undoActors // second undone activity is always covered
+		if i != bad {
+			oa = undoActors
 		}
 		var al A
 		for _, a := range oa {
@@ -248,12 +286,38 @@ func genUndo(g *prng.R) c06Case {
 		}
 		doc := M{"@context": AS, "type": "Like", "id": oid, "actor": al, "object": L + "/notes/1"}
 		sc.Remote[oid] = sim.RemoteSpec{Doc: doc}
-		if g.Bool() {
+		covered := subset(setOf(oa), setOf(undoActors))
+		byIRI := g.Bool()
+		if byIRI {
 			objs = append(objs, oid)
 		} else {
-			objs = append(objs, M{"type": "Like", "id": oid, "actor": al, "object": L + "/notes/1"})
+			emb := M{"type": "Like", "id": oid, "actor": al, "object": L + "/notes/1"}
+			if g.Chance(1, 5) {
+				// the peer's embedded copy says something else than the
+				// document its origin serves: the document is the activity
+				if covered {
+					emb["actor"] = A{R2 + "/users/someone-else"}
+					either = true // refusing on the copy's word is the safe direction
+				} else {
+					emb["actor"] = stringsToA(undoActors)
+				}
+			}
+			objs = append(objs, emb)
 		}
-		if !subset(setOf(oa), setOf(undoActors)) {
+		switch g.Intn(12) {
+		case 0: // the undone activity cannot be fetched
+			sc.Remote[oid] = sim.RemoteSpec{Fail: true}
+			if byIRI {
+				covered = false // nothing to check the Undo against
+			} else {
+				either = true
+			}
+		case 1: // its document names no actor at all
+			sc.Remote[oid] = sim.RemoteSpec{Doc: M{"@context": AS, "type": "Like", "id": oid, "object": L + "/notes/1"}}
+			covered = true // no actor to cover; whether such an Undo is taken is left open
+			either = true
+		}
+		if !covered {
 			ok = false
 		}
 	}
@@ -271,8 +335,11 @@ func genUndo(g *prng.R) c06Case {
 	expect := "reject"
 	if ok {
 		expect = "apply"
+		if either {
+			expect = "either"
+		}
 	}
-	return c06Case{Kind: "Undo", Sc: sc, Expect: expect, Info: M{"actor_relation": rel}}
+	return c06Case{Kind: "Undo", Sc: sc, Expect: expect, Info: M{"actor_relation": rel, "uncovered_at": bad, "of": n}}
 }
 
 func genBlocked(g *prng.R) c06Case {
@@ -289,8 +356,30 @@ func genBlocked(g *prng.R) c06Case {
 			actors = append(actors, pool[i])
 		}
 	}
+	if g.Chance(1, 8) {
+		// the same actor once more, in the other form
+		if _, isIRI := actors[0].(string); isIRI {
+			actors = append(actors, M{"type": "Person", "id": ids[0]})
+		} else {
+			actors = append(actors, ids[0])
+		}
+	}
+	if g.Chance(1, 10) {
+		// a Link-typed actor is identified by its href
+		actors[len(actors)-1] = M{"type": "Link", "href": ids[len(ids)-1]}
+		if len(actors) > len(ids) {
+			actors[len(actors)-1] = M{"type": "Link", "href": ids[0]}
+		}
+	}
+	noID := g.Chance(1, 10)
+	if noID {
+		// an embedded actor without any id: the block check cannot be
+		// asked about it, so the request has to fail
+		at := g.Intn(len(actors) + 1)
+		actors = append(actors[:at:at], append(A{M{"type": "Person", "name": "anonymous"}}, actors[at:]...)...)
+	}
 	var av interface{} = actors
-	if n == 1 && g.Bool() {
+	if len(actors) == 1 && g.Bool() {
 		av = actors[0]
 	}
 	sc.Cfg.Blocked = 3
@@ -310,16 +399,16 @@ func genBlocked(g *prng.R) c06Case {
 	}
 	sc.Requests = []sim.Request{sim.PostInboxReq(aliceIn(), withCtx(act))}
 	expect := "apply"
-	if anyBlocked {
+	if anyBlocked || noID {
 		expect = "reject"
 	}
-	return c06Case{Kind: "Blocked", Sc: sc, Expect: expect, Info: M{"actor_ids": ids}}
+	return c06Case{Kind: "Blocked", Sc: sc, Expect: expect, Info: M{"actor_ids": ids, "actor_without_id": noID}}
 }
 
 func init() {
 	checks["c06"] = func(id string) int {
 		r := newRun(id, "exploration")
-		r.Rule = "inbox POSTs over (a) Update/Delete with activity-id host vs 1..3 object-id hosts in {equal, different, port-differing, sub-domain, case-only} as IRIs or embedded objects, (b) Accept/Follow graphs with the stored Follow present / absent / of another type / with another actor / lacking an accepting actor / with extra objects, the Follow embedded or by IRI (a forged remote copy is served), (c) Undo with actor sets equal / subset / superset / disjoint over 1..2 undone activities, (d) 1..3 activity actors each as IRI or embedded object, each blocked or not; the store delta, the Blocked argument and the response are compared with a model of the four checks; non-trivial = a case whose model outcome is 'reject' or whose actors include an embedded object; distinct by scenario"
+		r.Rule = "inbox POSTs over (a) Update/Delete with activity-id host vs 1..3 object-id hosts in {equal, different, port-differing, sub-domain, case-only} as IRIs or embedded objects, (b) Accept/Follow graphs with the stored Follow present / absent / of another type / with another actor / lacking an accepting actor / with extra objects, the Follow embedded or by IRI (a forged remote copy is served), (c) Undo with actor sets equal / subset / superset / disjoint over 1..3 undone activities (the uncovered one anywhere; embedded copies that disagree with the served document; unfetchable and actor-less documents), (d) 1..3 activity actors each as IRI or embedded object, each blocked or not; the store delta, the Blocked argument and the response are compared with a model of the four checks; non-trivial = a case whose model outcome is 'reject' or whose actors include an embedded object; distinct by scenario"
 		r.Assumptions = []string{"hosts differing only in letter case are accepted with either outcome", "store equality is JSON equality of the simulated byte store, the inbox page excepted"}
 		judge := func(cs c06Case) {
 			sc := cs.Sc
@@ -347,9 +436,37 @@ func init() {
 			}
 			failed := rp.Err != "" || (len(rp.Statuses) == 1 && rp.Statuses[0] != 200)
 			r.Count("cases."+cs.Kind+"."+cs.Expect, 1)
+			// the block check is asked about every actor of every inbox
+			// activity before any side effect, whatever the type
+			{
+				asked := map[string]bool{}
+				firstSide := -1
+				for i, e := range res.Log {
+					if e.Kind == "app.Blocked" && (firstSide < 0) {
+						for _, a := range e.Args {
+							asked[a] = true
+						}
+					}
+					if firstSide < 0 && sideEffectEvent(e) {
+						firstSide = i
+					}
+				}
+				if firstSide >= 0 {
+					for _, a := range idsOf(act["actor"]) {
+						if !asked[a] {
+							viol("blocked-argument", "pub.(*sideEffectActor).AuthorizePostInbox", cs.Kind+": actor not asked about", fmt.Sprintf("the block check was not asked about actor %s before the first side effect (%s)", a, res.Log[firstSide].Kind))
+						}
+					}
+				}
+			}
 			switch cs.Kind {
 			case "Update", "Delete":
 				applied := len(real) > 0
+				if cs.Expect == "either" && applied == failed {
+					// hosts that differ in letter case only: the same host
+					// or not, but one answer for the whole request
+					viol("origin-check-bypassed", "pub.mustHaveActivityOriginMatchObjects", cs.Kind+" half-applied "+fmt.Sprint(cs.Info["host_classes"]), fmt.Sprintf("failed=%v but store changes=%v", failed, real))
+				}
 				if cs.Expect == "reject" && (applied || !failed) {
 					viol("origin-check-bypassed", "pub.mustHaveActivityOriginMatchObjects", cs.Kind+" "+fmt.Sprint(cs.Info["host_classes"]), fmt.Sprintf("object host differs from the activity host but failed=%v store changes=%v", failed, real))
 				}
@@ -371,6 +488,15 @@ func init() {
 					if failed || !subset(setOf(acc), setOf(after)) {
 						viol("accept-not-applied", "pub.FederatingWrappedCallbacks.accept", "verified accept", fmt.Sprintf("failed=%v following=%v want to contain %v", failed, after, acc))
 					}
+					// the accepting actors, nobody else, nothing else
+					if !subset(setOf(after), union(setOf(before), setOf(acc))) {
+						viol("accept-not-verified", "pub.FederatingWrappedCallbacks.accept", "verified accept adds others", fmt.Sprintf("following=%v holds more than the earlier %v and the accepting actors %v", after, before, acc))
+					}
+					for _, c := range real {
+						if c != alice()+"/following" {
+							viol("accept-not-verified", "pub.FederatingWrappedCallbacks.accept", "verified accept changes other data", fmt.Sprintf("%s changed", c))
+						}
+					}
 				}
 			case "Undo":
 				called := false
@@ -378,6 +504,9 @@ func init() {
 					if e.Kind == "cb.fed.wrapped.Undo" {
 						called = true
 					}
+				}
+				if cs.Expect == "reject" && len(real) > 0 {
+					viol("undo-actor-check-bypassed", "pub.mustHaveActivityActorsMatchObjectActors", "store changed", fmt.Sprintf("store changes %v in a refused Undo", real))
 				}
 				if cs.Expect == "reject" && (called || !failed) {
 					viol("undo-actor-check-bypassed", "pub.mustHaveActivityActorsMatchObjectActors", "actors "+fmt.Sprint(cs.Info["actor_relation"]), fmt.Sprintf("Undo accepted (callback=%v failed=%v) although an undone activity has an actor the Undo lacks", called, failed))
@@ -387,17 +516,25 @@ func init() {
 				}
 			case "Blocked":
 				ids, _ := cs.Info["actor_ids"].([]string)
+				noID := cs.Info["actor_without_id"] == true
 				blkIdx := -1
+				asked := map[string]bool{}
 				for i, e := range res.Log {
 					if e.Kind == "app.Blocked" {
-						blkIdx = i
-						if !reflect.DeepEqual(e.Args, ids) {
-							viol("blocked-argument", e.Site, "actor ids", fmt.Sprintf("Blocked was asked about %v, the activity's actors are %v", e.Args, ids))
+						if blkIdx < 0 {
+							blkIdx = i
 						}
-						break
+						for _, a := range e.Args {
+							asked[a] = true
+						}
 					}
 				}
-				if blkIdx < 0 {
+				// every actor's id, whether in one call or several, and no id
+				// that is not an actor's
+				if blkIdx >= 0 && !noID && !sameSet(keys(asked), ids) {
+					viol("blocked-argument", res.Log[blkIdx].Site, "actor ids", fmt.Sprintf("Blocked was asked about %v, the activity's actors are %v", keys(asked), ids))
+				}
+				if blkIdx < 0 && !noID {
 					viol("blocked-not-asked", "pub.(*sideEffectActor).AuthorizePostInbox", "no call", "Blocked was never called")
 				}
 				for i, e := range res.Log {
@@ -409,7 +546,9 @@ func init() {
 					if len(changes) > 0 || !reflect.DeepEqual(res.Before.Inboxes, res.After.Inboxes) {
 						viol("blocked-but-changed", "pub.(*baseActor).PostInboxScheme", "blocked actor", fmt.Sprintf("changes=%v", changes))
 					}
-					if len(rp.Statuses) != 1 || rp.Statuses[0] != 403 {
+					// "the request fails": an error, or an answer other than 200
+					// (that the answer is 403 is C10's clause)
+					if !failed {
 						viol("blocked-status", "pub.(*sideEffectActor).AuthorizePostInbox", "blocked actor", fmt.Sprintf("statuses=%v err=%q", rp.Statuses, rp.Err))
 					}
 				}
